@@ -20,7 +20,7 @@ TECHNIQUE = 'dense grid sweep + explicit boundary probing against NIST reference
 RULE = ('8 types x {forward, inverse, totality, boundaries, scaling}; grid blocks of 12,500 points; non-trivial = every grid block; distinct = '
         '(type, part, block)')
 ASSUMPTIONS = ['NIST inverse functions are only specified on their validity range; outside it only totality (no NaN) is required']
-REQUIRED = ['shape_totality_calls', 'block_size_points', 'window_pairs', 'single_precision_channels', 'chained_scalings', 'default_direction_cases', 'purity_calls', 'forward_points', 'inverse_points', 'boundary_probes', 'monotone_pairs', 'totality_points', 'scaling_points', 'through_channel']
+REQUIRED = ['scalar_boundary_probes', 'default_type_cases', 'shape_totality_calls', 'block_size_points', 'window_pairs', 'single_precision_channels', 'chained_scalings', 'default_direction_cases', 'purity_calls', 'forward_points', 'inverse_points', 'boundary_probes', 'monotone_pairs', 'totality_points', 'scaling_points', 'through_channel']
 TYPES = 'BEJKNRST'
 CODES = {'B': 10047, 'E': 10055, 'J': 10072, 'K': 10073, 'N': 10077, 'R': 10082, 'S': 10085, 'T': 10086}
 BANDS = {
@@ -190,6 +190,27 @@ def boundaries(case, ctx):
     th = impl(L)
     ctx.evaluation()
     ctx.distinct((L, 'boundaries'))
+    # scalars (Python float, NumPy scalar, 0-d array) exactly on, and next to, every piece boundary of both directions give what
+    # the same value gives inside an array
+    fwd_edges = [float(table[i_][0]) for i_ in range(1, len(table))]
+    try:
+        # the inverse pieces are not part of the reference tables: their boundaries are read off the implementation (probe points only)
+        inv_edges = sorted({float(v_) for p_ in th._inverse_polynomials for v_ in (p_.applicable_range.start, p_.applicable_range.end) if v_ is not None})
+    except Exception:
+        inv_edges = []
+    for name_, fn_, edges in (('forward', th.celsius_to_mv, fwd_edges), ('inverse', th.mv_to_celsius, inv_edges)):
+        for b_ in edges:
+            for v_ in (b_, float(np.nextafter(b_, -np.inf)), float(np.nextafter(b_, np.inf))):
+                want_ = float(np.asarray(fn_(np.array([v_, v_])))[0])
+                for kind_, arg_ in (('python-float', v_), ('numpy-scalar', np.float64(v_)), ('zero-d-array', np.array(v_))):
+                    ctx.count('scalar_boundary_probes')
+                    try:
+                        got_ = float(np.asarray(fn_(arg_)))
+                    except Exception as ex:
+                        ctx.violation('%s/scalar-input-raises/%s/%s' % (name_, kind_, util.exc_key(ex)), {'type': L, 'value': v_})
+                        continue
+                    if got_ != want_ and not (got_ != got_ and want_ != want_):
+                        ctx.violation('%s/scalar-differs-from-array/%s/%s' % (name_, kind_, L), {'value': v_, 'scalar': got_, 'array': want_})
     for i in range(1, len(table)):
         b = table[i][0]
         pts = np.array([np.nextafter(np.nextafter(b, -np.inf), -np.inf), np.nextafter(b, -np.inf), b, np.nextafter(b, np.inf), np.nextafter(np.nextafter(b, np.inf), np.inf)])
@@ -290,6 +311,20 @@ def scaling(case, ctx):
     if got32.dtype != np.dtype('f8') or not np.allclose(got32, ref32, rtol=1e-12, atol=1e-9, equal_nan=True):
         ctx.violation('scaling/single-precision-channel/%s' % L, {'direction': d, 'dtype': str(got32.dtype),
                                                                  'max_abs_diff': float(np.nanmax(np.abs(got32.astype('f8') - ref32)))})
+    # inputs of one sign only / of one piece only must be left untouched too (fast paths for the common case)
+    th_ = impl(L)
+    for arr_ in (T[T >= 0], T[T < 0], np.sort(T)[:5], np.sort(T)[-5:]):
+        for nm_, fn_, xin in (('forward', th_.celsius_to_mv, arr_), ('scaling', S.ThermocoupleScaling(CODES[L], 1, SG.RAW).scale, arr_)):
+            if len(xin) == 0:
+                continue
+            xx = np.array(xin, dtype='f8')
+            kk = xx.tobytes()
+            r1_ = np.array(fn_(xx), dtype='f8')
+            ctx.count('purity_calls')
+            if xx.tobytes() != kk:
+                ctx.violation('%s/modifies-a-single-sign-input/%s' % (nm_, L), {'first': float(xin[0])})
+            elif not np.array_equal(r1_, np.array(fn_(xx), dtype='f8'), equal_nan=True):
+                ctx.violation('%s/second-call-differs/%s' % (nm_, L), {'first': float(xin[0])})
     x = np.array(inputs, dtype='f8')
     keep = x.tobytes()
     direct = sc.scale(x)
@@ -317,6 +352,12 @@ def scaling(case, ctx):
         segs3 = M.build_file(random.Random(0), [('g', 'c', 'f64', len(inputs), pl)], nseg=1, nchunks=(1,), values_fn=lambda p, t, n: inputs)
         extra.append(('channel-default-direction', TdmsFile.read(io.BytesIO(M.encode_file(segs3)[0]))['g']['c'][:]))
         ctx.count('default_direction_cases')
+    if L == 'J':
+        # (library convention, mirrored: a scale without a Thermocouple_Type property is a type J thermocouple)
+        pl = [(n_, t_, v_) for n_, t_, v_ in SG.graph_props([desc]) if not n_.endswith('Thermocouple_Type')]
+        segs4 = M.build_file(random.Random(0), [('g', 'c', 'f64', len(inputs), pl)], nseg=1, nchunks=(1,), values_fn=lambda p, t, n: inputs)
+        extra.append(('channel-default-type', TdmsFile.read(io.BytesIO(M.encode_file(segs4)[0]))['g']['c'][:]))
+        ctx.count('default_type_cases')
     for label, got in [('direct', direct), ('channel', through), ('chained-input-source', chained)] + extra:
         if d == 1:
             slack = 1e-9 * np.abs(1000.0 * Vmv) + 1e-9 if label.startswith('chained') else 0.0     # x/k*k is not exact
